@@ -30,6 +30,10 @@ search: manufactured-solution problems (runtime numerics, labelled partial): ord
         (problems posed in s = (x - c0)/L so that the ODE stays O(1)), the returned callable evaluated on arrays, mixed-magnitude arrays,
         arrays of one point and bare scalars; EVERY returned derivative is compared with the manufactured solution relative to the size
         of that derivative (L^-k), never only y.
+        Argument forms are part of the quantifier "all initial data / the returned callable": the initial values are handed over as list,
+        tuple, float64 array, list of np.float64 and - with whole-number values (manufactured solutions with a prescribed whole-number
+        jet at x0) - as list / tuple of Python ints and int64 / int32 / float32 arrays; the returned callable is evaluated on the sorted
+        array, the same points shuffled, descending, with repeats, one at a time and as scalars, every form against the exact derivatives.
 """
 from __future__ import annotations
 
@@ -134,10 +138,50 @@ class ScaledSol:
         return self.base.d(n, (x - self.c0) / self.L) / self.L ** n
 
 
+class JetSol:
+    """base solution + Taylor polynomial around x0 such that the jet (y, y', y'') at x0 has the prescribed (whole-number) values"""
+
+    def __init__(self, base, x0, jet):
+        self.base, self.x0 = base, float(x0)
+        self.t = [float(c) - float(base.d(k, x0)) for k, c in enumerate(jet)]
+
+    def d(self, n, x):
+        x = np.asarray(x, dtype=float)
+        extra = sum(t * (x - self.x0) ** (k - n) / math.factorial(k - n) for k, t in enumerate(self.t) if k >= n)
+        return self.base.d(n, x) + extra
+
+
+Y0_FORMS = ["list", "tuple", "ndarray", "list_np_float64", "list_int", "tuple_int", "int64_array", "int32_array", "float32_array"]
+
+
+def initial_data(spec, sol):
+    """the initial values in the argument form the caller chose (the values are the same numbers in every form)"""
+    K, x0 = spec["order"], spec["span"][0]
+    vals = [int(c) for c in spec["int_jet"][:K]] if "int_jet" in spec else [float(sol.d(k, x0)) for k in range(K)]
+    form = spec.get("y0_form", "list")
+    if form in ("list", "list_int"):
+        return list(vals)
+    if form in ("tuple", "tuple_int"):
+        return tuple(vals)
+    if form == "ndarray":
+        return np.array(vals, dtype=float)
+    if form == "list_np_float64":
+        return [np.float64(v) for v in vals]
+    if form == "int64_array":
+        return np.array(vals, dtype=np.int64)
+    if form == "int32_array":
+        return np.array(vals, dtype=np.int32)
+    if form == "float32_array":
+        return np.array(vals, dtype=np.float32)
+    raise KeyError(form)
+
+
 def build(spec):
     """-> (coeffs as handed to the library, fx returning FRESH arrays, solution with exact derivatives w.r.t. x)"""
     scale = tuple(spec.get("scale", (0.0, 1.0)))
     sol = ScaledSol(Sol(*spec["sol"]), *scale)
+    if "int_jet" in spec:
+        sol = JetSol(sol, spec["span"][0], spec["int_jet"][:spec["order"]])
     cs = spec["coeffs"]
     coeffs = [coeff_callable(c, k, scale) for k, c in enumerate(cs)]
     if spec.get("as_array"):
@@ -236,8 +280,12 @@ def sample_sol(rng):
 
 
 def spec_desc(s):
+    if s.get("y0_form") or "int_jet" in s:
+        sc0 = f" initial data as {s.get('y0_form', 'list')}" + (f" with the whole-number jet {list(s['int_jet'][:s['order']])} at x0" if "int_jet" in s else "")
+    else:
+        sc0 = ""
     sc = f" in the scaled variable s=(x-{s['scale'][0]})/{s['scale'][1]} (a_k = L^k A_k(s), y = Y(s))" if "scale" in s else ""
-    return (f"{s['problem']} order={s['order']}{' (x_span as np.float64)' if s.get('np_span') else ''}{sc} coeffs={s['coeffs']}{' (ndarray)' if s.get('as_array') else ''} solution={s['sol']} "
+    return (f"{s['problem']} order={s['order']}{' (x_span as np.float64)' if s.get('np_span') else ''}{sc0}{sc} coeffs={s['coeffs']}{' (ndarray)' if s.get('as_array') else ''} solution={s['sol']} "
             f"transform={tf_desc(s['tf'])} x in {s['span']}" + (f" method={s['method']}" if s["problem"] == "ivp" else f" bd={s['bd']}"))
 
 
@@ -284,13 +332,35 @@ def relerr(got, exact):
     return float(np.max(np.abs(np.asarray(got, dtype=float) - exact)) / (1.0 + np.max(np.abs(exact))))
 
 
+SHUFFLE = [3, 0, 7, 1, 8, 5, 2, 6, 4]  # a permutation of the 9 check points that is not its own inverse
+
+
 def eval_modes(out, xs, K, scalar_ok=True, singles=None):
-    """the returned callable evaluated on the whole array, one point at a time (arrays of one point) and at bare scalars"""
-    modes = {"array": np.asarray(call_quiet(out, xs), dtype=float).reshape(K, -1)}
+    """the returned callable evaluated in every form a caller may use: the sorted array, the same points in another order, with repeated
+    points, reversed, one point at a time (arrays of one point) and at bare scalars -> {mode: (values (K, n), points)}"""
+    def ev_raw(p):
+        return np.asarray(call_quiet(out, p), dtype=float).reshape(K, -1)
+
+    def ev(p):  # a way of evaluating that raises is a finding about that way only
+        try:
+            return ev_raw(p)
+        except Exception as e:  # noqa: BLE001
+            return e
+    modes = {"array": (ev_raw(xs), xs)}
+    sh = xs[SHUFFLE]
+    modes["points in shuffled order"] = (ev(sh), sh)
+    rp = np.array([xs[2], xs[6], xs[2], xs[0], xs[6], xs[7]])
+    modes["repeated points"] = (ev(rp), rp)
+    rv = xs[::-1].copy()
+    modes["points in descending order"] = (ev(rv), rv)
     singles = xs if singles is None else singles
-    modes["one point at a time"] = np.hstack([np.asarray(call_quiet(out, np.array([x])), dtype=float).reshape(K, 1) for x in singles])
+    def stack(parts):
+        bad = [q for q in parts if isinstance(q, Exception)]
+        return bad[0] if bad else np.hstack(parts)
+    modes["one point at a time"] = (stack([ev(np.array([x])) for x in singles]), np.asarray(singles))
     if scalar_ok:
-        modes["scalar points"] = np.hstack([np.asarray(call_quiet(out, float(x)), dtype=float).reshape(K, 1) for x in (xs[0], xs[-1])])
+        ends = np.array([xs[0], xs[-1]])
+        modes["scalar points"] = (stack([ev(float(x)) for x in ends]), ends)
     return modes
 
 
@@ -302,7 +372,7 @@ def run_ivp(spec, tfs):
     coeffs, fx, sol = build(spec)
     K = spec["order"]
     x0, x1 = spec["span"]
-    y0 = [float(sol.d(k, x0)) for k in range(K)]
+    y0 = initial_data(spec, sol)
     span = (np.float64(x0), np.float64(x1)) if spec.get("np_span") else (x0, x1)
     tf = make_transform(tfs)
     atol = IVP_ATOL
@@ -397,11 +467,13 @@ def check_problem(spec, results):
         except Exception as e:  # noqa: BLE001
             results.append(("raises", f"{type(e).__name__}: {str(e)[:120]}", "a solution", variant, spec))
             continue
-        v = modes["array"]
+        v = modes["array"][0]
         vals[variant] = v
-        for mode, vm in modes.items():
+        for mode, (vm, pts) in modes.items():
             label = variant if mode == "array" else f"{variant}, {mode}"
-            pts = xs if vm.shape[1] == len(xs) else (xs[::4] if vm.shape[1] == len(xs[::4]) and mode != "scalar points" else np.array([xs[0], xs[-1]]))
+            if isinstance(vm, Exception):
+                results.append(("raises", f"{type(vm).__name__}: {str(vm)[:120]}", f"values at {pts.tolist()}", label, spec))
+                continue
             for k in range(K):
                 exact = sol.d(k, pts)
                 err = relerr(vm[k] * L ** k, exact * L ** k)
@@ -442,7 +514,7 @@ def corpus_checks(ctx: Ctx):
         spec = dict(CORPUS_IMPLICIT, method=method)
         try:
             modes, xs = with_timeout(SOLVE_LIMIT_S, run_ivp, spec, None)
-            v = modes["array"]
+            v = modes["array"][0]
             _, _, sol = build(spec)
             ok = relerr(v[0], sol.d(0, xs)) <= 1e-4
             obs = "inaccurate"
@@ -498,7 +570,7 @@ def corpus_checks(ctx: Ctx):
             ctx.case(("corpus", "float_span", cname, np_span))
             try:
                 modes, xs = with_timeout(SOLVE_LIMIT_S, run_ivp, spec, tfs)
-                v = modes["array"]
+                v = modes["array"][0]
                 _, _, sol = build(spec)
                 ok, obs = relerr(v[0], sol.d(0, xs)) <= IVP_TOL, "inaccurate"
             except Exception as e:  # noqa: BLE001
@@ -562,6 +634,20 @@ def scaled_directed_specs():
             for tfs, span, sc, k, m in SCALED_DIRECTED]
 
 
+def integer_data_specs():
+    """fixed problems whose initial data are whole numbers handed over in integer / single-precision typed containers (a list of Python
+    ints, a tuple, int64 / int32 / float32 arrays): the values are the same numbers as in a list of floats, so the answer must be too"""
+    out = []
+    forms = ["list_int", "int64_array", "tuple_int", "float32_array", "int32_array", "list_int", "int64_array", "tuple_int"]
+    jets = [(1, 2, -1), (2, -1, 3), (0, 3, 1), (-2, 1, 2)]
+    tfl = [DIRECTED_TF[0], DIRECTED_TF[3], DIRECTED_TF[1], DIRECTED_TF[5]]
+    for i, (tfs, (a, b)) in enumerate(tfl):
+        for j, k in enumerate((2, 3)):
+            out.append({"problem": "ivp", "order": k, "coeffs": DIRECTED_COEFFS[k], "sol": DIRECTED_SOL, "tf": tfs, "span": (a, b) if (i + j) % 2 == 0 else (b, a),
+                        "method": "DOP853" if j else "RK45", "int_jet": jets[(i + j) % 4], "y0_form": forms[2 * i + j], "directed": True})
+    return out
+
+
 def directed_specs():
     """fixed problems solved in every tier and under every seed: first-order IVPs through each kind of map forwards and backwards
     (no initial derivatives to convert: only the span, the right-hand side and the composition with g are exercised), and second / third
@@ -617,7 +703,7 @@ def sweep(ctx: Ctx, flags: dict):
     implicit_ok, float_span_ok, li_matrix_ok = flags["implicit_ok"], flags["float_span_ok"], flags["li_matrix_ok"]
     rng = ctx.rng
     results = []
-    plan = directed_specs() + scaled_directed_specs()
+    plan = directed_specs() + scaled_directed_specs() + integer_data_specs()
     n_ivp = 36 if ctx.quick else 1200
     n_bvp = 12 if ctx.quick else 300
     classes = list(TF_CLASSES)
@@ -641,6 +727,12 @@ def sweep(ctx: Ctx, flags: dict):
             continue
         if all(c[0] in ("c", "i") for c in spec["coeffs"]) and rng.random() < 0.4:
             spec["as_array"] = True
+        # the argument form of the initial data; every fourth problem of order >= 2 has whole-number data in an integer-typed container
+        if order >= 2 and it % 4 == 1:
+            spec["int_jet"] = tuple(rng.randint(-3, 3) for _ in range(3))
+            spec["y0_form"] = rng.choice(["list_int", "tuple_int", "int64_array", "int32_array", "float32_array"])
+        else:
+            spec["y0_form"] = rng.choice(["list", "tuple", "ndarray", "list_np_float64"])
         plan.append(spec)
     for it in range(8 if ctx.quick else 200):
         order = 1 + it % 3
@@ -904,6 +996,11 @@ def wiring_cases(ctx: Ctx, sigs):
                 S = " ".join(poly_coq(c) for c in Sc)
                 x0, x1 = c03.dy(rng, iv[0], (iv[0] + iv[1]) / 2, 8), c03.dy(rng, (iv[0] + iv[1]) / 2, iv[1], 8)
                 y0 = [dq(rng, -2, 2) for _ in range(K)]
+                y0_arg = list(y0)
+                if (ci + K) % 2:  # whole-number initial data in an integer-typed container: the same numbers, the same model
+                    y0 = [float(rng.choice([-3, -2, -1, 1, 2, 3])) for _ in range(K)]
+                    y0_arg = rng.choice([lambda v: [int(t) for t in v], lambda v: np.array(v, dtype=np.int64), lambda v: tuple(int(t) for t in v),
+                                         lambda v: np.array(v, dtype=np.float32)])(y0)
                 desc = f"K={K}:{tf_desc(tfs)}:span=({x0},{x1})"
                 rec = {}
 
@@ -912,7 +1009,7 @@ def wiring_cases(ctx: Ctx, sigs):
                     return StubResult(stub_solution(Sc))
 
                 GO.solve_ivp = fake_ivp
-                out = call_quiet(GO.solve_ode_ivp, (x0, x1), fx, coeffs, list(y0), tf, method="RK23", rtol=3e-5, atol=7e-9)
+                out = call_quiet(GO.solve_ode_ivp, (x0, x1), fx, coeffs, y0_arg, tf, method="RK23", rtol=3e-5, atol=7e-9)
                 GO.solve_ivp = real_ivp
                 direct(rec["kw"] == dict(dense_output=True, vectorized=True, rtol=3e-5, atol=7e-9, method="RK23"), f"ivp-kwargs:{desc}", str(rec.get("kw")),
                        "solve_ode_ivp does not pass dense_output/vectorized/rtol/atol/method through to solve_ivp")
@@ -943,7 +1040,8 @@ def wiring_cases(ctx: Ctx, sigs):
                         add(proj, v[e], f"ivp-rhs:{desc}:r={r}:Y={Y}:{e}", f"func(r={r}, Y={Y})[{e}] handed to solve_ivp = {v[e]} is not the generated ivp_rhsT_{K}")
                     ctx.case(("wiring-ivp-rhs", desc, r))
                 # returned callable
-                xs = np.array([c03.dy(rng, min(x0, x1), max(x0, x1), 8) for _ in range(2)])
+                two = sorted(c03.dy(rng, min(x0, x1), max(x0, x1), 8) for _ in range(2))
+                xs = np.array([two[1], two[0]])  # not in ascending order
                 vals = np.asarray(call_quiet(out, xs), dtype=float).reshape(K, -1)
                 for q, xq in enumerate(xs):
                     if K == 1:
@@ -1020,10 +1118,10 @@ def wiring_cases(ctx: Ctx, sigs):
 
 WIRING_SCALED = [
     # (transform, (x0, x1), evaluation point sets): parameters and domains far from O(1); in the first rows |g''| < 1e-8 although g is not affine
-    (("Inverse", ("BeckeRTransform", (("rmin", 0.0), ("R", 1e4)))), (1e4, 5e4), [[1e4, 2.5e4, 5e4], [150.0, 3e4, 5e4], [5e4], [1e4]]),
+    (("Inverse", ("BeckeRTransform", (("rmin", 0.0), ("R", 1e4)))), (1e4, 5e4), [[1e4, 2.5e4, 5e4], [150.0, 3e4, 5e4], [5e4, 1e4, 2.5e4, 1e4], [5e4], [1e4]]),
     (("Inverse", ("BeckeRTransform", (("rmin", 0.0), ("R", 1e-4)))), (1e-4, 1e-3), [[1e-4, 5e-4, 1e-3], [1e-3]]),
     (("Inverse", ("KnowlesRTransform", (("rmin", 0.0), ("R", 4096.0), ("k", 2)))), (2048.0, 8192.0), [[2048.0, 8192.0], [4096.0]]),
-    (("BeckeRTransform", (("rmin", 0.0), ("R", 1e4))), (-0.5, 0.25), [[-0.5, 0.0, 0.25], [0.125]]),
+    (("BeckeRTransform", (("rmin", 0.0), ("R", 1e4))), (-0.5, 0.25), [[0.0, 0.25, -0.5, 0.0], [0.125]]),
     (("BeckeRTransform", (("rmin", 0.0), ("R", 1e-4))), (-0.5, 0.25), [[-0.5, 0.0, 0.25], [0.125]]),
     (("KnowlesRTransform", (("rmin", 0.0), ("R", 1e-4), ("k", 3))), (-0.5, 0.25), [[-0.5, 0.25], [0.0]]),
     (("LinearFiniteRTransform", (("rmin", 0.0), ("rmax", 1e4))), (-0.5, 0.5), [[-0.5, 0.5], [0.25]]),
@@ -1048,7 +1146,7 @@ def wiring_scaled_cases(ctx: Ctx, sigs):
 
     real_ivp = GO.solve_ivp
     try:
-        for tfs, (x0, x1), point_sets in (WIRING_SCALED if not ctx.quick else WIRING_SCALED[:5]):
+        for tfs, (x0, x1), point_sets in (WIRING_SCALED if not ctx.quick else WIRING_SCALED[:4]):
             tf = make_transform(tfs)
             g = tf_coq(sigs, tfs)
             gs = f"{g[0]} {g[2]} {g[3]} {g[4]}"
@@ -1217,10 +1315,12 @@ def run(ctx: Ctx):
             for _, key, observed, text, rp in bs[:6]:
                 ctx.fail(obligation, key, observed, text, rp, found_input=False)
     # the remaining failing problems: one per (check kind, variant)
-    seen_kinds = {k[:2] for k in used}
+    def kind_of(k):
+        return (k[0], k[1].split(",")[0])
+    seen_kinds = {kind_of(k) for k in used}
     for k in keys:
-        if k[:2] not in seen_kinds:
-            seen_kinds.add(k[:2])
+        if kind_of(k) not in seen_kinds:
+            seen_kinds.add(kind_of(k))
             c = cand(k, first[k])
             ctx.fail(f"sweep_{k[0]}", c[0], c[1], c[2], c[3])
     phases["oracles+correspondence"] = round(time.time() - t0, 1)
@@ -1271,6 +1371,8 @@ def replay(rp):
     spec["span"] = tuple(spec["span"])
     if "scale" in spec:
         spec["scale"] = tuple(spec["scale"])
+    if "int_jet" in spec:
+        spec["int_jet"] = tuple(spec["int_jet"])
 
     def fix_tf(t):
         if t is None:
